@@ -367,6 +367,18 @@ class PollModel(e1_history.Model):
             for i, sd in enumerate(sub.sides):
                 kr, kw, hup = kernel(sd.s)
                 if hup:
+                    # hung up but the peer's last bytes are still unread: the descriptor is readable with real data - every poller
+                    # must keep reporting it readable and must not declare it disconnected (that would drop the data)
+                    if 'r' in g['roles'][i] and g['has_data'][i] and not g['peer_open'][i] and not g['gone'][i] and kr:
+                        any_ready = True
+                        st.counters['states_hung_up_with_unread_data_and_reader'] += 1
+                        n = sum(1 for (nm, sock, ch) in it2 if nm == '_read' and sock is sd.s)
+                        if n != 1:
+                            bad.append(('V2-hungup-unread:_read', '%s: socket %d is registered for reading and holds unread data (its peer has closed), '
+                                        'but %d _read events named it in the iteration' % (sub.pname, i, n)))
+                        if any(nm == '_disconnect' and sock is sd.s for (nm, sock, ch) in it1 + it2):
+                            bad.append(('V1-disconnect-with-unread-data', '%s: _disconnect for socket %d although data of its (closed) peer is still unread'
+                                        % (sub.pname, i)))
                     continue
                 for role, ready, evname in (('r', kr, '_read'), ('w', kw, '_write')):
                     if role in g['roles'][i] and ready:
